@@ -245,6 +245,8 @@ def check_tables(ctx, F, tag, prefix):
         comps = {k: v[0] for k, v in row.items()}
         unis = {k: v[1] for k, v in row.items() if v[1] is not None or k in ("From", "load")}
         okc = None not in comps.values() and len(set(comps.values())) == 1 and len(comps) >= 3
+        if None in comps.values() and len(set(v for v in comps.values() if v is not None)) <= 1:
+            okc = None      # a site whose closure the rule cannot read (a named closure, a helper): undecided; two readable sites that disagree are refuted
         oku = None not in unis.values() and len(set(unis.values())) == 1
         ctx.ob(prefix + ".index-component-agrees", "RLVector.%s%s" % (f, tag), loc(lb.raw["span"]), okc, "table-agreement",
                "sample component per site: %s" % {k: cname(v) for k, v in comps.items()})
